@@ -777,6 +777,34 @@ pub fn gen_scenario(rng: &mut Rng) -> Scenario {
         g.bound.insert(name.to_string(), Ty::Fun);
         stmts.push(SStmt { stmt: Stmt::Expr(assign(name, l)), kind: "bind-lambda".into() });
     }
+    // some sessions have many bindings: one statement (a list of nested assignments) binds
+    // 17..260 names w0.. to numbers, strings, lists and a few functions; later statements read
+    // some of them. Stability is checked for every root key after every statement.
+    if g.rng.chance(1, 8) {
+        let count = *g.rng.pick(&[17usize, 33, 65, 130, 260]);
+        let mut items = vec![];
+        for i in 0..count {
+            let v = match g.rng.below(6) {
+                0 => st(&format!("s{}", i)),
+                1 => E::List(vec![num(i as i64), num(1)]),
+                2 if i > 0 => lam(&["x"], bin("+", id("x"), id(&format!("w{}", g.rng.usize_below(i))))),
+                3 => E::Rec(vec![RK::Static("k".into(), num(i as i64))]),
+                _ => num(i as i64 * 3 + 1),
+            };
+            items.push(assign(&format!("w{}", i), v));
+        }
+        stmts.push(SStmt { stmt: Stmt::Expr(E::List(items)), kind: "bind-many".into() });
+        let probe: Vec<E> = [0, 1, 15, 16, 31, 32, 63, 64, 127, 128, count - 1].iter().filter(|i| **i < count).map(|i| id(&format!("w{}", i))).collect();
+        stmts.push(SStmt { stmt: Stmt::Expr(E::List(probe)), kind: "observe".into() });
+        // a second batch after the first (growth past a threshold while names already exist)
+        if g.rng.chance(1, 2) {
+            let more: Vec<E> = (0..g.rng.range(1, 40) as usize).map(|i| assign(&format!("v{}", i), num(i as i64))).collect();
+            stmts.push(SStmt { stmt: Stmt::Expr(E::List(more)), kind: "bind-many".into() });
+        }
+        // rebinding one of them must still fail
+        let victim = format!("w{}", g.rng.usize_below(count));
+        stmts.push(SStmt { stmt: Stmt::Expr(assign(&victim, num(-1))), kind: "rebind".into() });
+    }
     // some contain a deep chain of scopes: ten nested do-blocks reading the outermost local at
     // the bottom, or a late-bound read of a caller's parameter from ten calls further down
     if g.rng.chance(1, 8) {
